@@ -84,6 +84,7 @@ def run(prog, chk):
     chk.rule(strops.empty_test_before_trim, prog, chk)  # pieces are tested for emptiness after trimming, not before
     chk.rule(strops.check_number_formatting, prog, chk)  # results are exact up to the 3-decimal *output* rounding  # A14.str-ops: how this property's strings are cut up is a reviewed, frozen inventory
     chk.rule(comma_wsp, prog, chk)
+    chk.rule(elref_ids_are_xml_names, prog, chk)
 
 
 def _derives_from_get_attr(body, op, key, depth=8):
@@ -552,3 +553,25 @@ def formatter_integer_shortcut_is_exact(prog, chk):
         chk.ob(not rounded, "A14.formatter-exact", f"fstr:int-cast#{n}", b.where(x, st.get("line")), "the integer written is the value itself, cut to an integer", f"fstr converts {Callee(o[2]['fn']).path.split('::')[-1] if rounded else ''}(x), not x, to the integer it writes: a value that is merely near a whole number is written as that number (150.012 -> 150), an error beyond the 3-decimal rounding of the output that every later reference to the written coordinate inherits")
     if not n:
         chk.undecided("A14.formatter-exact", "fstr", b.where(), "fstr has no float-to-integer cast: how whole numbers are written is not read here")
+
+
+
+def elref_ids_are_xml_names(prog, chk):
+    """`href="#id"` / `url(#id)` name an element by its id, and an id is an XML name: letters are Unicode letters.  The
+    reader of element references classifies id characters with the Unicode predicates (is_alphabetic / is_alphanumeric),
+    not their ASCII-only namesakes - `<use href="#größe"/>` is standard SVG"""
+    b = prog.maybe_body("svgdx::types::extract_elref")
+    if b is None:
+        chk.undecided("A16.elref-id", "extract_elref", "src/types.rs", "the reader of element references is not there under this name")
+        return
+    chk.touch(b)
+    scope = [b] + prog.closures_of(b)
+    ascii_ = [(x, bb, t) for x in scope for (bb, t, c) in x.call_sites(lambda c: c.path.split("::")[-1] in ("is_ascii_alphabetic", "is_ascii_alphanumeric", "is_ascii_lowercase", "is_ascii_uppercase"))]
+    uni = [1 for x in scope for (bb, t, c) in x.call_sites(lambda c: c.path.split("::")[-1] in ("is_alphabetic", "is_alphanumeric"))]
+    if ascii_:
+        x, bb, t = ascii_[0]
+        chk.bad("A16.elref-id", "extract_elref:ascii-only", x.where(bb, t.get("line")), "the id of an element reference is read with ASCII-only character classes: a reference to an element whose id has a non-ASCII letter (`href=\"#größe\"`, valid XML and SVG) is refused as an invalid reference and the transform fails")
+    elif uni:
+        chk.ok("A16.elref-id", "extract_elref", b.where(), "id characters are classified with the Unicode predicates")
+    else:
+        chk.undecided("A16.elref-id", "extract_elref", b.where(), "how extract_elref classifies the characters of an id is not read here")
